@@ -22,7 +22,10 @@ NBlocks == 2
 Call(name, handle, idx) == [name |-> name, handle |-> handle, idx |-> idx]
 
 \* calls taking a single handle that may be null
-HandleCalls == {"serialize", "serialize_sealed", "block_count", "authorize", "print", "public_key_roundtrip",
+\* authorize_fail_*: authorization of a token whose block check fails, under an authorizer with a failing check of
+\* its own, with a matching policy (Unauthorized) or without one (NoMatchingPolicy): the call fails and every
+\* error detail accessor (count, check id, block id, rule, is_authorizer) reports what the Rust error carries
+HandleCalls == {"authorize_fail_policy", "authorize_fail_nopolicy", "serialize", "serialize_sealed", "block_count", "authorize", "print", "public_key_roundtrip",
                 "key_pair_roundtrip", "from_bytes", "append_block", "authorizer_from_token", "builder_build"}
 IndexCalls == {"block_context", "print_block_source"}
 \* calls whose handle is the token: they can also be made on a SEALED token (the sealed serialization read back)
@@ -40,12 +43,14 @@ Outcome(c) ==
     IF c.handle = "null" THEN "error"
     ELSE IF c.name \in IndexCalls /\ c.idx >= NBlocks THEN "error"
     ELSE IF c.handle = "sealed" /\ c.name \in RefusedOnSealed THEN "error"
+    ELSE IF c.name \in {"authorize_fail_policy", "authorize_fail_nopolicy"} THEN "error"
     ELSE "value"
 
 \* what the error slot holds after the call
 ErrorAfter(c, before) ==
     IF Outcome(c) = "error"
-    THEN (IF c.handle = "null" THEN "InvalidArgument" ELSE IF c.name \in IndexCalls THEN "InvalidBlockId" ELSE "Sealed")
+    THEN (IF c.handle = "null" THEN "InvalidArgument" ELSE IF c.name \in IndexCalls THEN "InvalidBlockId"
+          ELSE IF c.name \in {"authorize_fail_policy", "authorize_fail_nopolicy"} THEN "Logic" ELSE "Sealed")
     ELSE before                                  \* a successful call leaves the slot alone
 
 VARIABLES alg, balg, calls, err, outs
